@@ -15,7 +15,7 @@ Pipeline of one check (DESIGN 1, 2.3, 2.4; CONVENTIONS):
   5. a case on which the two transcriptions disagree (a model-level lead) must show up as a failing
      predicate on the real code, otherwise the run is inconclusive (unreproduced model counterexample).
 """
-import json, os, re, glob, time, shutil, collections, hashlib
+import json, os, re, glob, time, shutil, collections, hashlib, random
 from concurrent.futures import ThreadPoolExecutor
 import vlib
 from vlib import Inconclusive, log
@@ -23,7 +23,9 @@ from vlib import Inconclusive, log
 FAM = {
     "C11": dict(mc="MC_Deps", sim="MC_DepsSim", sim_depth=30, sim_n=dict(quick=400, thorough=6000),
                 hv="c11", obs="DepsObs", export="DepsExport", inv="AgreeInv"),
-    "C14": dict(mc="MC_Schema", sim=None, hv="c14", obs="SchemaObs", export="SchemaExport", inv="SchemaInv"),
+    # cli_share: the part of the cases (seeded choice) that is also run through the helm command line (pkg/cmd)
+    "C14": dict(mc="MC_Schema", sim=None, hv="c14", obs="SchemaObs", export="SchemaExport", inv="SchemaInv",
+                cli_share=dict(quick=3, thorough=1)),
 }
 SPEC_FILES = ["Deps.tla", "Schema.tla"]
 
@@ -171,6 +173,29 @@ def describe(cf):
     return "%s: %s | file%s set%s" % (cf["id"], " || ".join(parts), short(c["user"]), short(c["uset"]))
 
 
+CLI_FLAGS = ["--skip-crds", "--no-hooks", "--force", "--create-namespace", "--atomic"]
+
+
+def mark_cli(cases, share, seed):
+    """seeded choice of the cases that also go through the command line (1 of `share`; every case with
+    schema-invalid values counts double in the draw), and of the one flag tried alone on each of them"""
+    rnd = random.Random(seed)
+    for cf in cases:
+        invalid = bool(cf.get("exp", {}).get("invalid"))
+        if share <= 1 or rnd.randrange(share) == 0 or (invalid and rnd.randrange(share) == 0):
+            cf["cli"] = True
+            cf["cliflag"] = rnd.choice(CLI_FLAGS)
+
+
+def op_name(line, op):
+    """display name of operation number op (1-based) of an observation line"""
+    try:
+        o = json.loads(line)["ops"][op - 1]
+        return o["mode"] + ("[" + o["flags"] + "]" if o.get("flags") else "") + ("+skip" if o["skip"] and not o.get("flags") else "")
+    except Exception:
+        return "op%d" % op
+
+
 def listed_known(pid):
     return {k["id"] for k in vlib.load_known() if k.get("status", "known") == "known" and k.get("property") == pid}
 
@@ -235,13 +260,16 @@ def run_family(pid, tier, seed, replay=None):
 
     if replay:
         cf = json.load(open(replay))
+        if "cli_share" in fam:
+            cf.setdefault("cli", True)
+            cf.setdefault("cliflag", CLI_FLAGS[0])
         lines, _ = run_harness(hv, fam["hv"], [cf], d, "replay")
         found, _ = judge(d, fam["obs"], lines, "replayjudge", 1)
         viols, known, mach = classify(found, listed)
         if mach:
             raise Inconclusive("machinery check failed on the replayed case: %s" % sorted(set(c for _, c, _ in mach)))
         for (_, check, op) in sorted(viols):
-            print("VIOLATION property=%s replay=%s check=%s%s" % (pid, replay, check, " op=%d" % op if op else ""))
+            print("VIOLATION property=%s replay=%s check=%s%s" % (pid, replay, check, " op=" + op_name(lines[0], op) if op else ""))
         for kf, n in sorted(known.items()):
             print("KNOWN-FINDING: property=%s %s" % (pid, kf))
         return 1 if viols else 0
@@ -257,6 +285,9 @@ def run_family(pid, tier, seed, replay=None):
         raise Inconclusive("TLC exported only %d cases" % len(cases))
     if ex["model_leads_outside_known_shapes"] or (sim and sim["model_leads_outside_known_shapes"]):
         log("MODEL: the transcriptions disagree on cases outside the understood shapes (a lead; decided below on the real code)")
+
+    if "cli_share" in fam:
+        mark_cli(cases, fam["cli_share"][tier], seed)
 
     # 3. the real code
     lines, hdt = run_harness(hv, fam["hv"], cases, d)
@@ -286,7 +317,7 @@ def run_family(pid, tier, seed, replay=None):
             raise Inconclusive("%d violating observations did not reproduce on a second run" % len(viols))
         byline = collections.defaultdict(list)
         for (l, check, op) in sorted(stable):
-            byline[l].append(check if not op else "%s@op%d" % (check, op))
+            byline[l].append(check if not op else "%s@%s" % (check, op_name(lines[l], op)))
         for l, checks in byline.items():
             path = os.path.join(viol_dir, "%s.json" % cases[l]["id"])
             json.dump(cases[l], open(path, "w"))
@@ -335,14 +366,20 @@ def run_family(pid, tier, seed, replay=None):
             "probe templates ({{ toJson .Values }}) report what a chart sees; hooks / CRDs / notes are attributed by their template path",
         ]
     else:
-        nops = sum(len(json.loads(l).get("ops", [])) for l in lines)
-        cov["operations_run_on_real_code"] = nops
+        ops = [p for l in lines for p in json.loads(l).get("ops", [])]
+        cov["operations_run_on_real_code"] = len(ops)
+        cov["operations_through_command_line"] = sum(1 for p in ops if p["mode"].startswith("cli-"))
+        cov["cases_also_run_through_command_line"] = sum(1 for c in cases if c.get("cli"))
+        cov["operations_by_mode"] = dict(collections.Counter(p["mode"] for p in ops))
+        cov["rejections_expected_and_observed"] = sum(1 for p in ops if p["schemaErr"] and not p["skip"])
         cov["schema_library_crosscheck"] = "SchemaValid (TLA+) = santhosh-tekuri/jsonschema on every (schema, observed final values) pair: check EvalAgrees"
         assumptions = [
             "schema family: type, required, enum, minimum/maximum, nested object, additionalProperties:false over scalar / table values (no $ref, lists, nulls)",
             "simcluster implements REST semantics for ConfigMaps, Secrets (release records) and CustomResourceDefinitions; readiness is scripted",
             "a render is observed through the `lookup` call of the root probe template (request log); template mode and lint cannot be observed that way",
             "with skip-schema-validation only install / upgrade / template are required not to reject (helm lint still validates the root values file)",
+            "command-line runs (pkg/cmd through the verif-tagged NewRootCmdWithConfigForVerif) use an injected action.Configuration over the "
+            "simulated cluster; they are serialised because pkg/cmd keeps its settings in package globals",
         ]
     vlib.write_evidence(pid, tier, seed, "model_checking", cov, time.time() - t0, len(out_viol), assumptions)
     if out_viol:
